@@ -2,8 +2,13 @@
 //! `build8 <cfg>`: build, write, re-parse; report the recorded digests next to digests recomputed
 //! independently (sha2 crate over the written bytes; payload decompressed with the codec crates).
 //! `shaw <script> <data>`: `Sha256Writer` over a scripted inner sink.
+//! `sign08 <key> <api> <src> <cfg…>`: build, then sign with an Ed25519 / RSA-4096 / ECDSA-P256 key through `Package::sign`,
+//!     `sign_with_timestamp` or `build_and_sign`, on the package value `build` returned (`mem`) or on the re-parsed one.
+//! `hist08 <ops> <package bytes>`: ANY start package (assets, hand-assembled, stale or wrong digests); `ops` = `,`-separated
+//!     `c` clear, `sE|sR|sC` sign_with_timestamp (Ed25519 / RSA / ECDSA), `SE|SR|SC` sign(), `w` write + re-parse.
 use crate::bld::*;
 use crate::common::*;
+use crate::pkggen::{asset_paths, gen_package_wf};
 use std::io::Write;
 
 fn first_str(h: &rpm::Header<rpm::IndexTag>, tag: rpm::IndexTag) -> String {
@@ -12,6 +17,100 @@ fn first_str(h: &rpm::Header<rpm::IndexTag>, tag: rpm::IndexTag) -> String {
         Ok(_) => "empty".into(),
         Err(_) => "absent".into(),
     }
+}
+
+fn recorded_file_digests(h: &rpm::Header<rpm::IndexTag>) -> String {
+    let v = h.get_entry_data_as_string_array(rpm::IndexTag::RPMTAG_FILEDIGESTS).map(|v| v.to_vec()).unwrap_or_default();
+    format!("{}:{:016x}", v.len(), fnv(v.join(",").as_bytes()))
+}
+
+fn key_paths(k: char) -> (&'static str, &'static str) {
+    match k {
+        'R' => ("/repo/tests/assets/signing_keys/secret_rsa4096.asc", "/repo/tests/assets/signing_keys/public_rsa4096.asc"),
+        'C' => ("/repo/tests/assets/signing_keys/secret_ecdsa_p256.asc", "/repo/tests/assets/signing_keys/public_ecdsa_p256.asc"),
+        _ => ("/repo/tests/assets/signing_keys/secret_ed25519.asc", "/repo/tests/assets/signing_keys/public_ed25519.asc"),
+    }
+}
+fn signer8(k: char) -> Result<rpm::signature::pgp::Signer, rpm::Error> {
+    rpm::signature::pgp::Signer::load_from_asc_bytes(&std::fs::read(key_paths(k).0)?)
+}
+fn verifier8(k: char) -> Result<rpm::signature::pgp::Verifier, rpm::Error> {
+    rpm::signature::pgp::Verifier::load_from_asc_bytes(&std::fs::read(key_paths(k).1)?)
+}
+
+/// `sign08 <E|R|C> <sign|signts|bas> <mem|reparsed> <cfg…>`: every digest the signed package records, next to the digests
+/// recomputed from the written bytes; then `clear_signatures` on it
+fn observe_sign8(key: &str, api: &str, src: &str, tokens: &[&str]) -> String {
+    let k = key.chars().next().unwrap_or('E');
+    let r = (|| -> Result<String, rpm::Error> {
+        let b = builder_from(tokens)?;
+        let pkg = if api == "bas" {
+            b.build_and_sign(signer8(k)?)?
+        } else {
+            let built = b.build()?;
+            let mut p = if src == "mem" { built } else {
+                let mut bytes = Vec::new();
+                built.write(&mut bytes)?;
+                rpm::Package::parse(&mut &bytes[..])?
+            };
+            if api == "sign" { p.sign(signer8(k)?)?; } else { p.sign_with_timestamp(signer8(k)?, 1_600_000_000u32)?; }
+            p
+        };
+        let mut out = Vec::new();
+        pkg.write(&mut out)?;
+        let mut p3 = rpm::Package::parse(&mut &out[..])?;
+        let o = p3.metadata.get_package_segment_offsets();
+        let (h, pl) = (o.header as usize, o.payload as usize);
+        let kind = tokens.iter().find_map(|t| t.strip_prefix("c=")).map(|c| c.split(':').next().unwrap()).unwrap_or(crate::bld::default_comp_kind());
+        let arch = decompress(kind, &out[pl..]);
+        let sha_of = |p: &rpm::Package| p.metadata.signature.get_entry_data_as_string(rpm::IndexSignatureTag::RPMSIGTAG_SHA256).map(|s| s.to_string()).unwrap_or("absent".into());
+        let hsha = sha_of(&p3);
+        let digests = p3.verify_digests().is_ok();
+        let verify = p3.verify_signature(&verifier8(k)?).is_ok();
+        let fd = recorded_file_digests(&p3.metadata.header);
+        let pd = first_str(&p3.metadata.header, rpm::IndexTag::RPMTAG_PAYLOADDIGEST);
+        let pda = first_str(&p3.metadata.header, rpm::IndexTag::RPMTAG_PAYLOADDIGESTALT);
+        p3.clear_signatures()?;
+        Ok(format!("ok paysha={} archsha={} pd={} pda={} hsha={} hreal={} fd={} digests={} verify={} chsha={}",
+            sha256_hex(&out[pl..]), arch.as_ref().map(|a| sha256_hex(a)).unwrap_or("undecodable".into()), pd, pda,
+            hsha, sha256_hex(&out[h..pl]), fd, digests, verify, sha_of(&p3)))
+    })();
+    cleanup();
+    match r { Ok(s) => s, Err(_) => "err".into() }
+}
+
+/// `hist08 <ops> <package>`: see the module comment. Observation: the header digest recorded at the end, the digest of the main
+/// header bytes of the written result, whether main header and payload bytes are those of the start package
+fn observe_hist8(ops: &str, bytes: &[u8]) -> String {
+    let r = (|| -> Result<String, rpm::Error> {
+        let mut p = match rpm::Package::parse(&mut &bytes[..]) { Ok(p) => p, Err(_) => return Ok("err-parse".into()) };
+        let o0 = p.metadata.get_package_segment_offsets();
+        rpm::verif_hooks::set_now(Some(1_650_000_000));
+        for op in ops.split(',').filter(|s| !s.is_empty() && *s != "-") {
+            let mut cs = op.chars();
+            match (cs.next(), cs.next()) {
+                (Some('c'), _) => p.clear_signatures()?,
+                (Some('s'), Some(k)) => p.sign_with_timestamp(signer8(k)?, 1_600_000_000u32)?,
+                (Some('S'), Some(k)) => p.sign(signer8(k)?)?,
+                (Some('w'), _) => {
+                    let mut b = Vec::new();
+                    p.write(&mut b)?;
+                    p = rpm::Package::parse(&mut &b[..])?;
+                }
+                _ => return Ok("bad-op".into()),
+            }
+        }
+        let mut out = Vec::new();
+        p.write(&mut out)?;
+        let p3 = rpm::Package::parse(&mut &out[..])?;
+        let o = p3.metadata.get_package_segment_offsets();
+        let (h, pl) = (o.header as usize, o.payload as usize);
+        let hsha = p3.metadata.signature.get_entry_data_as_string(rpm::IndexSignatureTag::RPMSIGTAG_SHA256).map(|s| hx(s.as_bytes())).unwrap_or("absent".into());
+        Ok(format!("ok hsha={} hreal={} hdrsame={} paysame={}", hsha, hx(sha256_hex(&out[h..pl]).as_bytes()),
+            out[h..pl] == bytes[o0.header as usize..o0.payload as usize], out[pl..] == bytes[o0.payload as usize..]))
+    })();
+    rpm::verif_hooks::set_now(None);
+    match r { Ok(s) => s, Err(_) => "err".into() }
 }
 
 fn observe_build8(tokens: &[&str]) -> String {
@@ -47,16 +146,19 @@ fn observe_build8(tokens: &[&str]) -> String {
             let rec = e.digest.as_ref().map(|d| d.as_hex().to_string()).unwrap_or_default();
             if !expected.values().any(|v| *v == rec) { fdg = false; }
         }
+        // RPMTAG_FILEDIGESTS as recorded, in header order: `<count>:<fnv of the texts joined with ','>` (predicted by the model
+        // from the contents: digest k = SHA-256 of the content archived for file k)
+        let fd = recorded_file_digests(&p2.metadata.header);
         // after clearing signatures the header digest must still be the true one
         p2.clear_signatures()?;
         let chsha = p2.metadata.signature.get_entry_data_as_string(rpm::IndexSignatureTag::RPMSIGTAG_SHA256).map(|s| s.to_string()).unwrap_or("absent".into());
         Ok(format!(
-            "ok paysha={} archsha={} pd={} pda={} hsha={} hreal={} fdg={} nfiles={} chsha={}",
+            "ok paysha={} archsha={} pd={} pda={} hsha={} hreal={} fd={} fdg={} nfiles={} chsha={}",
             sha256_hex(&bytes[pl..]),
             arch.as_ref().map(|a| sha256_hex(a)).unwrap_or("undecodable".into()),
             first_str(&p2.metadata.header, rpm::IndexTag::RPMTAG_PAYLOADDIGEST),
             first_str(&p2.metadata.header, rpm::IndexTag::RPMTAG_PAYLOADDIGESTALT),
-            hsha, sha256_hex(&bytes[h..pl]), fdg, nfiles, chsha
+            hsha, sha256_hex(&bytes[h..pl]), fd, fdg, nfiles, chsha
         ))
     })();
     cleanup();
@@ -216,8 +318,45 @@ pub fn eval(op: &str, a: &[&str]) -> Option<String> {
         "stale8" => Some(observe_stale8(a[0], &a[1..])),
         "lazy8" => Some(observe_lazy8(a[0], a[1], &a[2..])),
         "shaw" => Some(observe_shaw(a[0], &unhx(a[2]), a[1].parse().ok()?)),
+        "sign08" if a.len() >= 3 => Some(observe_sign8(a[0], a[1], a[2], &a[3..])),
+        "hist08" if a.len() == 2 => Some(observe_hist8(a[0], &arg_bytes(a[1]))),
         _ => None,
     }
+}
+
+/// every `<type>:<level>` the library accepts, from the table `tools/gen/compression_levels.py` scrapes out of compressor.rs on
+/// every run (lean/RpmVerif/Gen/CompressionLevels.lean: `levelVariants`, `levelAccepted`); zstd's negative levels are sampled.
+/// The fixed list is only the fallback for an unreadable table.
+fn scraped_levels(thorough: bool) -> Vec<String> {
+    let fallback = || ["none", "gzip:1", "gzip:6", "gzip:9", "zstd:3", "zstd:19", "xz:6", "bzip2:9"].iter().map(|s| s.to_string()).collect::<Vec<_>>();
+    let text = match std::fs::read_to_string("lean/RpmVerif/Gen/CompressionLevels.lean") { Ok(t) => t, Err(_) => return fallback() };
+    let line_of = |key: &str| text.lines().find(|l| l.starts_with(&format!("def {} ", key))).map(|l| l.to_string());
+    let names: Vec<String> = match line_of("levelVariants") {
+        Some(l) => l.split('"').skip(1).step_by(2).map(|s| s.to_lowercase()).collect(),
+        None => return fallback(),
+    };
+    let acc = match line_of("levelAccepted") { Some(l) => l, None => return fallback() };
+    let mut out = vec!["none".to_string()];
+    for part in acc.split('(').skip(1) {
+        let nums: Vec<i64> = part.split(')').next().unwrap_or("").split(',').filter_map(|x| x.trim().parse().ok()).collect();
+        if nums.len() != 3 { continue; }
+        let (lo, hi) = (nums[1], nums[2]);
+        let name = match names.get(nums[0] as usize) { Some(n) => n.clone(), None => continue };
+        let mut ls: Vec<i64> = Vec::new();
+        if hi - lo <= 64 { ls.extend(lo..=hi); } else {
+            // a long range (zstd -131072..22): both ends, a spread of the negative part, everything from -7 up
+            ls.push(lo);
+            if thorough { ls.extend([lo / 2, -1000, -50]); }
+            ls.extend((-7).max(lo)..=hi);
+        }
+        // the slowest levels only in the thorough tier
+        for l in ls {
+            if !thorough && name == "zstd" && l > 19 && l < hi { continue; }
+            out.push(format!("{}:{}", name, l));
+        }
+    }
+    if out.len() < 5 { return fallback(); }
+    out
 }
 
 pub fn gen(ctx: &mut Ctx) {
@@ -235,20 +374,102 @@ pub fn gen(ctx: &mut Ctx) {
         let chunks = 1 + ctx.rng.below(3);
         ctx.req(&format!("shaw {} {} {}", if script.is_empty() { "-".to_string() } else { script.join(",") }, chunks, hx(&data)));
     }
-    // builds: every compressor, sizes where the compressors start to accept partial buffers
-    let comps = ["none", "gzip:1", "gzip:6", "gzip:9", "zstd:3", "zstd:19", "xz:6", "bzip2:9"];
-    let sizes: Vec<usize> = if ctx.thorough { vec![0, 1, 4096, 70_000, 300_000, 3_000_000] } else { vec![0, 1, 4096, 70_000, 300_000] };
+    // builds: every compression type x EVERY level of the range the library accepts (read from the table scraped from
+    // compressor.rs on this run), sizes around the buffer sizes of the encoders (32 KiB, 64 KiB, 128 KiB ± 1), standard
+    // and large-file (stripped cpio, `lf=0`: hook threshold 0) form
+    let comps = scraped_levels(ctx.thorough);
+    let sizes: Vec<usize> = vec![0, 1, 4096, 32767, 32768, 32769, 65535, 65536, 65537, 70_000, 131071, 131072, 131073, 300_000];
+    let file = |dest: &[u8], seed: u64, size: usize| format!("f={}:33188:726f6f74:726f6f74:0:~:-:1500000000:{}:{}:~", hx(dest), seed, size);
+    let head = "n=70 v=31 l=4d4954 a=78 s=73 now=1700000000 sd=1600000000";
     let mut k = 0u64;
     for (ci, c) in comps.iter().enumerate() {
-        for (zi, size) in sizes.iter().enumerate() {
+        // quick: three sizes per level, walking through the list; thorough: all of them (+ 3 MB for the usual levels)
+        let mut zs: Vec<usize> = if ctx.thorough { sizes.clone() } else { (0..3).map(|j| sizes[(ci * 3 + j) % sizes.len()]).collect() };
+        if ctx.thorough && ["none", "gzip:6", "zstd:3", "xz:6", "bzip2:9"].contains(&c.as_str()) { zs.push(3_000_000); }
+        for (zi, size) in zs.iter().enumerate() {
+            k += 1;
+            if k % sn != si { continue; }
+            let seed = 2 + ((ci + zi) % 2) as u64;   // compressible / incompressible
+            let extra = if (ci + zi) % 3 == 0 { format!(" {}", file(b"/opt/b", seed + 10, 13)) } else { String::new() };
+            let lf = if (ci + zi) % 4 == 1 { " lf=0" } else { "" };
+            ctx.req(&format!("build8 {}{} c={} {}{}", head, lf, c, file(b"/opt/a", seed, *size), extra));
+        }
+    }
+    // the boundary sizes for the usual levels, both content kinds, standard and large-file form; the large-file switch at its
+    // boundary (hook threshold = combined size, combined size - 1)
+    for c in ["none", "gzip:1", "gzip:6", "gzip:9", "zstd:3", "zstd:19", "xz:6", "bzip2:9"] {
+        for size in [32767usize, 32768, 32769, 131071, 131072, 131073] {
             for seed in [2u64, 3] {
                 k += 1;
                 if k % sn != si { continue; }
-                let extra = if (ci + zi) % 2 == 0 { format!(" f={}:33188:726f6f74:726f6f74:0:~:-:1500000000:{}:13:~", hx(b"/opt/b"), seed + 10) } else { String::new() };
-                ctx.req(&format!(
-                    "build8 n=70 v=31 l=4d4954 a=78 s=73 now=1700000000 sd=1600000000 c={} f={}:33188:726f6f74:726f6f74:0:~:-:1500000000:{}:{}:~{}",
-                    c, hx(b"/opt/a"), seed, size, extra
-                ));
+                if !ctx.thorough && (k / sn) % 3 != 0 { continue; }
+                let lf = match (size + seed as usize) % 3 { 0 => " lf=0".to_string(), 1 => format!(" lf={}", size + 7), _ => format!(" lf={}", size + 6) };
+                ctx.req(&format!("build8 {}{} c={} {} {}", head, lf, c, file(b"/opt/a", seed, size), file(b"/opt/z", seed + 2, 7)));
+            }
+        }
+    }
+    // signing: Ed25519 / RSA-4096 / ECDSA-P256 through Package::sign, sign_with_timestamp and build_and_sign, on the package
+    // value build() returned and on the re-parsed one
+    {
+        let mut j = 0u64;
+        for key in ["E", "R", "C"] {
+            for api in ["sign", "signts", "bas"] {
+                for src in ["mem", "reparsed"] {
+                    if api == "bas" && src == "reparsed" { continue; }
+                    j += 1;
+                    if j % sn != si { continue; }
+                    let c = ["none", "gzip:6", "zstd:3", "xz:6"][(j % 4) as usize];
+                    let lf = if j % 5 == 0 { " lf=0" } else { "" };
+                    ctx.req(&format!("sign08 {} {} {} {}{} c={} {} {}", key, api, src, head, lf, c, file(b"/opt/a", 2 + j % 2, 4096 + j as usize), file(b"/etc/b", 5, 13)));
+                }
+            }
+        }
+        let n = ctx.q(6u64, 120) / sn + 1;
+        for i0 in 0..n {
+            let i = i0 * sn + si;
+            let cfg = crate::c06::gen_cfg(&mut ctx.rng, &[0usize, 13, 4096]);
+            let key = ["E", "R", "C"][(i % 3) as usize];
+            let api = ["sign", "signts", "bas"][((i / 3) % 3) as usize];
+            ctx.req(&format!("sign08 {} {} {} {}", key, api, if i % 2 == 0 { "mem" } else { "reparsed" }, cfg));
+        }
+    }
+    // sign / clear histories from ANY start package: the crate's assets (rpm-built, some signed), random hand-assembled
+    // packages (no digests at all), built packages whose recorded header digest is stale or whose payload was replaced
+    {
+        let _ = std::fs::create_dir_all("work/c08-blobs");
+        let mut starts: Vec<(String, Vec<u8>)> = Vec::new();
+        for pth in asset_paths() {
+            if let Ok(b) = std::fs::read(&pth) {
+                if b.len() > 100_000 && !ctx.thorough { continue; }
+                starts.push((pth.file_name().map(|n| n.to_string_lossy().to_string()).unwrap_or_default(), b));
+            }
+        }
+        let mut r2 = Rng::new(ctx.seed ^ 0xC08);
+        for i in 0..ctx.q(4, 40) { starts.push((format!("gen{}", i), gen_package_wf(&mut r2))); }
+        if let Ok(b) = builder_from(&format!("{} c=gzip:6 {}", head, file(b"/opt/a", 3, 300)).split(' ').collect::<Vec<_>>()).and_then(|b| b.build()) {
+            let mut bytes = Vec::new();
+            if b.write(&mut bytes).is_ok() {
+                let rec = b.metadata.signature.get_entry_data_as_string(rpm::IndexSignatureTag::RPMSIGTAG_SHA256).map(|s| s.to_string()).unwrap_or_default();
+                let mut stale = bytes.clone();
+                if let Some(pos) = stale.windows(rec.len().max(1)).position(|w| w == rec.as_bytes()) { stale[pos] = if stale[pos] == b'0' { b'1' } else { b'0' }; }
+                starts.push(("stale".into(), stale));
+                let mut cut = bytes.clone();
+                let l = cut.len();
+                cut.truncate(l - 9);
+                cut.extend_from_slice(b"other payload bytes");
+                starts.push(("payload-replaced".into(), cut));
+            }
+        }
+        cleanup();
+        let histories = ["-", "w", "c", "sE", "SR", "sC", "c,w", "sR,w", "sE,c", "c,sC,w", "sE,w,sR", "SE,w,c,w", "w,sC,sE", "sR,c,SC"];
+        let mut j = 0u64;
+        for (name, bytes) in &starts {
+            for (hi, hst) in histories.iter().enumerate() {
+                j += 1;
+                if j % sn != si { continue; }
+                if !ctx.thorough && (hi + name.len()) % 3 != 0 && hi > 5 { continue; }
+                let arg = blob_arg("work/c08-blobs", &format!("s{}-{}-{}", ctx.seed, si, name), bytes);
+                ctx.req(&format!("hist08 {} {}", hst, arg));
             }
         }
     }
